@@ -48,6 +48,11 @@ def openFd (f : Sched) (h : Heap) : Cell × Heap :=
   if f h.nacq then (.null, { h with nacq := h.nacq + 1, inj := h.inj + 1 })
   else (.own, { h with nacq := h.nacq + 1, fds := h.fds + 1 })
 
+/-- `pipe(fds)`: ONE acquisition in the schedule, two descriptors on success -/
+def openPipe (f : Sched) (h : Heap) : Cell × Cell × Heap :=
+  if f h.nacq then (.null, .null, { h with nacq := h.nacq + 1, inj := h.inj + 1 })
+  else (.own, .own, { h with nacq := h.nacq + 1, fds := h.fds + 2 })
+
 /-- `free(p)`: `free(NULL)` is a no-op, freeing a released block is a double free -/
 def free (c : Cell) (h : Heap) : Except Err Heap :=
   match c with
